@@ -354,3 +354,90 @@ def validity_margin(calc, s1, s2, canon):
         tot = sum(map(sum, J))
         return abs(det_frac([[v / tot for v in row] for row in J]))
     return None
+
+
+# --------------------------------------------------------------------------
+# exact saturation boundaries (a log argument / determinant that is exactly 0)
+# --------------------------------------------------------------------------
+def _dyadic(x):
+    """exactly representable as a float64 with room to spare (so sums / products of a few such values are exact too)"""
+    x = Fraction(x)
+    d = x.denominator
+    return d & (d - 1) == 0 and abs(x.numerator).bit_length() <= 40 and d.bit_length() <= 40
+
+
+def float_exact_boundary(calc, s1, s2, canon):
+    """True when the pair lies EXACTLY on the validity boundary of `calc` (validity_margin == 0) and float64 evaluation
+    of the estimator is exact, so that the validity decision cannot depend on rounding noise:
+    tn93 -- every quotient the formula forms (frequencies, proportions, coefficients, the ratios inside the three log
+    arguments) is a dyadic rational, hence every IEEE operation returns the exact value;
+    paralinear / logdet -- the joint frequency matrix has 16 equal entries (complete saturation: every elimination
+    step of the determinant is exact)."""
+    mg = validity_margin(calc, s1, s2, canon)
+    if mg is None or mg != 0:
+        return False
+    cols = [(a, b) for a, b in zip(s1, s2) if a in canon and b in canon]
+    n = len(cols)
+    A, C, G, T = canon
+    if calc == "tn93":
+        pi = {x: Fraction(sum(1 for a, b in cols if a == x) + sum(1 for a, b in cols if b == x), 2 * n) for x in canon}
+        if any(v == 0 for v in pi.values()):
+            return False
+        P1 = Fraction(sum(1 for a, b in cols if {a, b} == {A, G}), n)
+        P2 = Fraction(sum(1 for a, b in cols if {a, b} == {C, T}), n)
+        Q = Fraction(sum(1 for a, b in cols if a != b), n) - P1 - P2
+        piR, piY = pi[A] + pi[G], pi[C] + pi[T]
+        prR, prY = pi[A] * pi[G], pi[C] * pi[T]
+        c1, c2 = 2 * prR / piR, 2 * prY / piY
+        qs = list(pi.values()) + [P1, P2, Q, P1 + P2 + Q, c1, c2, prR * piY / piR, prY * piR / piY, P1 / c1, P2 / c2,
+                                  Q / (2 * piR), Q / (2 * piY), Q / (2 * piR * piY)]
+        return all(_dyadic(q) for q in qs)
+    if calc in ("paralinear", "logdet", "logdet_notk"):
+        J = [sum(1 for a, b in cols if a == x and b == y) for x in canon for y in canon]
+        return len(set(J)) == 1 and J[0] > 0
+    return False
+
+
+def delicate(calc, s1, s2, canon):
+    """the validity of `calc` on this pair is decided by float rounding noise (an exact log argument / determinant of
+    size < 1e-9) -- except on exact boundaries where float evaluation is exact (float_exact_boundary)"""
+    mg = validity_margin(calc, s1, s2, canon)
+    return mg is not None and mg < 1e-9 and not float_exact_boundary(calc, s1, s2, canon)
+
+
+BOUNDARY_KINDS = ["uniform16", "tn93-w3", "tn93-w1", "tn93-w2", "jc69-p34", "near-w3"]
+
+
+def gen_boundary_pair(rng, canon, kind):
+    """the canonical columns [(x, y), ...] of a pair lying exactly on a saturation boundary (`canon` = A,C,G,T/U order):
+    uniform16  all 16 column types equally often: p = 3/4, all TN93 arguments 0 or on the boundary, det F = 0
+    tn93-w3    uniform composition, half the columns transversions, no transitions: w3 = 0
+    tn93-w1/2  uniform composition, a quarter of the columns purine (pyrimidine) transitions, no transversions: w1 (w2) = 0
+    jc69-p34   any composition, exactly 3/4 of the columns differ
+    near-w3    tn93-w3 with ONE transversion column replaced by an identical one (just inside the valid region)"""
+    A, C, G, T = canon
+    m = rng.choice([1, 1, 2, 4, 8])
+    if kind == "uniform16":
+        m = rng.choice([1, 2, 3, 4])
+        cols = [(a, b) for a in canon for b in canon] * m
+    elif kind in ("tn93-w3", "near-w3"):
+        tv = rng.choice([[(A, C), (C, A), (G, T), (T, G)], [(A, T), (T, A), (G, C), (C, G)], [(A, C), (C, G), (G, T), (T, A)]])
+        cols = [(x, x) for x in canon] * m + tv * m
+        if kind == "near-w3":
+            cols[-1] = (cols[-1][0], cols[-1][0])
+    elif kind == "tn93-w1":
+        cols = [(A, G), (G, A), (A, A), (G, G)] * m + [(C, C), (T, T)] * (2 * m)
+    elif kind == "tn93-w2":
+        cols = [(C, T), (T, C), (C, C), (T, T)] * m + [(A, A), (G, G)] * (2 * m)
+    elif kind == "jc69-p34":
+        k = rng.choice([1, 2, 3, 5, 8])
+        cols = []
+        for _ in range(3 * k):
+            x = rng.choice(canon)
+            cols.append((x, rng.choice([y for y in canon if y != x])))
+        for _ in range(k):
+            x = rng.choice(canon)
+            cols.append((x, x))
+    else:
+        raise ValueError(kind)
+    return cols
